@@ -234,10 +234,10 @@ fn user_alphabet() -> Vec<Vec<UserVariableItem>> {
 
 /// every list made of one item from each of <= 3 distinct kinds (kind order), the reversed list,
 /// and two items of the same kind for the kinds that repeat in practice
-fn user_lists() -> Vec<Vec<UserVariableItem>> {
+fn user_lists(max_kinds: usize) -> Vec<Vec<UserVariableItem>> {
     let alpha = user_alphabet();
     let mut out = vec![vec![]];
-    for kinds in vx_kit::gen::subsets_up_to(alpha.len(), 3) {
+    for kinds in vx_kit::gen::subsets_up_to(alpha.len(), max_kinds) {
         if kinds.is_empty() {
             continue;
         }
@@ -263,7 +263,7 @@ fn user_lists() -> Vec<Vec<UserVariableItem>> {
     out
 }
 
-fn lists_up_to_2<T: Clone>(alpha: &[T]) -> Vec<Vec<T>> {
+fn lists_up_to<T: Clone>(alpha: &[T], three: bool) -> Vec<Vec<T>> {
     let mut out = vec![vec![]];
     for a in alpha {
         out.push(vec![a.clone()]);
@@ -273,10 +273,19 @@ fn lists_up_to_2<T: Clone>(alpha: &[T]) -> Vec<Vec<T>> {
             out.push(vec![a.clone(), b.clone()]);
         }
     }
+    if three {
+        for a in alpha {
+            for b in alpha {
+                for c in alpha {
+                    out.push(vec![a.clone(), b.clone(), c.clone()]);
+                }
+            }
+        }
+    }
     out
 }
 
-fn pc_rq_lists() -> Vec<Vec<PresentationContextProposed>> {
+fn pc_rq_lists(three: bool) -> Vec<Vec<PresentationContextProposed>> {
     let mut alpha = vec![];
     for id in [1u8, 255] {
         for abs in [VERIFICATION, "1.2"] {
@@ -289,10 +298,10 @@ fn pc_rq_lists() -> Vec<Vec<PresentationContextProposed>> {
             }
         }
     }
-    lists_up_to_2(&alpha)
+    lists_up_to(&alpha, three)
 }
 
-fn pc_ac_lists() -> Vec<Vec<PresentationContextResult>> {
+fn pc_ac_lists(three: bool) -> Vec<Vec<PresentationContextResult>> {
     use PresentationContextResultReason::*;
     let mut alpha = vec![];
     for id in [1u8, 255] {
@@ -302,7 +311,7 @@ fn pc_ac_lists() -> Vec<Vec<PresentationContextResult>> {
             }
         }
     }
-    lists_up_to_2(&alpha)
+    lists_up_to(&alpha, three)
 }
 
 struct Case {
@@ -311,9 +320,9 @@ struct Case {
     pdu: Pdu,
 }
 
-fn small_universe() -> Vec<Case> {
+fn small_universe(thorough: bool) -> Vec<Case> {
     let mut out = vec![];
-    let users = user_lists();
+    let users = user_lists(if thorough { 4 } else { 3 });
     // (a) user-information sweep over a fixed head
     for (i, u) in users.iter().enumerate() {
         out.push(Case {
@@ -349,7 +358,7 @@ fn small_universe() -> Vec<Case> {
         for version in [1u16, 0x0102] {
             for app in [rp::APP_CONTEXT, "1.2"] {
                 for (ui, u) in few_users.iter().enumerate() {
-                    for (pi, pcs) in pc_rq_lists().into_iter().enumerate() {
+                    for (pi, pcs) in pc_rq_lists(thorough).into_iter().enumerate() {
                         out.push(Case {
                             id: format!("rq-pcs/h{hi}/v{version}/app{}/u{ui}/{pi}", app.len()),
                             family: "assoc-pcs",
@@ -363,7 +372,7 @@ fn small_universe() -> Vec<Case> {
                             }),
                         });
                     }
-                    for (pi, pcs) in pc_ac_lists().into_iter().enumerate() {
+                    for (pi, pcs) in pc_ac_lists(thorough && hi == 0).into_iter().enumerate() {
                         out.push(Case {
                             id: format!("ac-pcs/h{hi}/v{version}/app{}/u{ui}/{pi}", app.len()),
                             family: "assoc-pcs",
@@ -900,10 +909,10 @@ fn strict_cases(l: &mut Local) {
 
 fn main() {
     let check = Check::from_args("C25", Level::Exploration);
-    check.set_rule("PDU values: A-ASSOCIATE-RQ/AC over (every list of <=3 user items of distinct kinds from a 47-item alphabet covering all 7 user-variable kinds, all 5 identity types, payloads empty/1/odd/even, + reversed pairs + same-kind pairs) and over (AE titles x protocol version x application context x every list of 0-2 presentation contexts with 0-2 transfer syntaxes, ids {1,255}, all 5 result reasons); every reject/abort value; release; unknown types {00,08,FF}; P-DATA with 0-3 PDVs of 0-3 bytes; boundary family: 16 variable-length fields x sizes 65515..=65537 (thorough 65480..=65540), 70000, 131080; every prefix of every small PDU x strict on/off; all 4x65536 reject and 65536 abort code patterns; strict-mode lengths max-1/max/max+1. A case is one PDU value; non-trivial = write_pdu was called and the oracle compared");
+    check.set_rule("PDU values: A-ASSOCIATE-RQ/AC over (every list of <=3 (thorough 4) user items of distinct kinds from a 47-item alphabet covering all 7 user-variable kinds, all 5 identity types, payloads empty/1/odd/even, + reversed pairs + same-kind pairs) and over (AE titles x protocol version x application context x every list of 0-2 (thorough 0-3) presentation contexts with 0-2 transfer syntaxes, ids {1,255}, all 5 result reasons); every reject/abort value; release; unknown types {00,08,FF}; P-DATA with 0-3 PDVs of 0-3 bytes; boundary family: 16 variable-length fields x sizes 65515..=65537 (thorough 65480..=65540), 70000, 131080; every prefix of every small PDU x strict on/off; all 4x65536 reject and 65536 abort code patterns; strict-mode lengths max-1/max/max+1. A case is one PDU value; non-trivial = write_pdu was called and the oracle compared");
     check.assume("vx-ref PS3.8 codec (written from the standard) and the field-meaning translation to_ref are the trusted base");
 
-    let cases = small_universe();
+    let cases = small_universe(check.thorough());
     check.extra("small_universe", json!(cases.len()));
     check.par_range(cases.len() as u64, |l, i| {
         let c = &cases[i as usize];
